@@ -1,17 +1,154 @@
 """Contracts of bibtexparser/writer.py (property C06; used by C01, C05, C07)."""
 from pyvc.api import contract, pred, rec
 
+COLUMN_INT = "isint(bibtex_format._align_field_values) and ival(bibtex_format._align_field_values) >= 0"
+
+
+@pred
+def pad(col, key):
+    return ' ' * max(0, col - len(key) - 3)
+
+
+@pred
+def field_line(fs, j, n, indent, col, tc):
+    return (indent + fs[j]._key + pad(col, fs[j]._key) + " = " + sval(fs[j]._value)
+            + ("," if tc or j < n - 1 else "") + "\n")
+
+
+@rec(args={"fs": "list:ref:Field", "i": "int", "n": "int", "indent": "str", "col": "int", "tc": "bool"}, ret="str")
+def field_lines(fs, i, n, indent, col, tc):
+    return "" if i <= 0 else field_lines(fs, i - 1, n, indent, col, tc) + field_line(fs, i - 1, n, indent, col, tc)
+
+
+@pred
+def entry_text(block, fmt):
+    return ("@" + block._entry_type + "{" + block._key + ",\n"
+            + field_lines(block._fields, len(block._fields), len(block._fields), fmt._indent,
+                          ival(fmt._align_field_values), fmt._trailing_comma)
+            + "}\n")
+
+
+@pred
+def string_text(block, fmt):
+    return "@string{" + block._key + " = " + sval(block._value) + "}\n"
+
+
+@pred
+def failed_text(block, fmt):
+    # the CONFIGURED comment (property C06), formatted with the number of raw lines
+    return fmt._parsing_failed_comment.format(n=len(sval(block._raw).splitlines())) + "\n" + sval(block._raw) + "\n"
+
+
+@pred
+def block_text(block, fmt):
+    return (entry_text(as_ref(block, 'ref:Entry'), fmt) if isinstance(block, Entry)
+            else string_text(as_ref(block, 'ref:String'), fmt) if isinstance(block, String)
+            else "@preamble{" + as_ref(block, 'ref:Preamble')._value + "}\n" if isinstance(block, Preamble)
+            else "@comment{" + as_ref(block, 'ref:ExplicitComment')._comment + "}\n" if isinstance(block, ExplicitComment)
+            else as_ref(block, 'ref:ImplicitComment')._comment + "\n" if isinstance(block, ImplicitComment)
+            else failed_text(as_ref(block, 'ref:ParsingFailedBlock'), fmt))
+
+
+@pred
+def writable(block):
+    """type invariant of a block the writer can serialise (what AddEnclosing / the splitter produce)"""
+    return ((isinstance(block, Entry) or isinstance(block, String) or isinstance(block, Preamble)
+             or isinstance(block, ExplicitComment) or isinstance(block, ImplicitComment)
+             or isinstance(block, ParsingFailedBlock))
+            and implies(isinstance(block, Entry), forall(j, 0 <= j < len(as_ref(block, 'ref:Entry')._fields),
+                                                         isstr(as_ref(block, 'ref:Entry')._fields[j]._value)))
+            and implies(isinstance(block, String), isstr(as_ref(block, 'ref:String')._value))
+            and implies(isinstance(block, ParsingFailedBlock), isstr(block._raw)))
+
+
+@rec(args={"bs": "list:ref:Block", "i": "int", "n": "int", "fmt": "ref:BibtexFormat"}, ret="str")
+def blocks_text(bs, i, n, fmt):
+    return "" if i <= 0 else (blocks_text(bs, i - 1, n, fmt) + block_text(bs[i - 1], fmt)
+                              + (fmt._block_separator if i - 1 < n - 1 else ""))
+
 
 @contract("bibtexparser.writer._val_intent_string")
 class _:
     """padding = spaces(max(0, value_column - len(key) - 3))"""
     sorts = {"bibtex_format": "ref:BibtexFormat", "key": "str", "result": "str"}
-    requires = {"column-int": "isinstance(bibtex_format._align_field_values, int) and not isinstance(bibtex_format._align_field_values, bool)"}
+    requires = {"column-int": COLUMN_INT}
     ensures = {
-        "C06.pad": "result == ' ' * max(0, ival(bibtex_format._align_field_values) - len(key) - 3)",
+        "C06.pad": "result == pad(ival(bibtex_format._align_field_values), key)",
         "C06.column": "implies(len(key) + 3 <= ival(bibtex_format._align_field_values), len(key) + len(result) + 3 == ival(bibtex_format._align_field_values))",
         "C06.long-key": "implies(len(key) + 3 >= ival(bibtex_format._align_field_values), result == '')",
     }
     raises = {}
     modifies = []
     allocates = False
+
+
+@contract("bibtexparser.writer._treat_entry")
+class _:
+    """the pieces of an entry concatenate to entry_text: header, one line per field (indent, key, padding,
+    ' = ', value, comma rule, newline), closing brace"""
+    sorts = {"block": "ref:Entry", "bibtex_format": "ref:BibtexFormat", "result": "list:str"}
+    requires = {"column-int": COLUMN_INT,
+                "values-str": "forall(j, 0 <= j < len(block._fields), isstr(block._fields[j]._value))"}
+    locals = {"res": "list:str"}
+    loops = {1: {"cursor": "_i",
+                 "invariant": {
+                     "range": "0 <= _i <= len(block._fields)",
+                     "text": "joined(res) == '@' + block._entry_type + '{' + block._key + ',\\n' + field_lines(block._fields, _i, len(block._fields), bibtex_format._indent, ival(bibtex_format._align_field_values), bibtex_format._trailing_comma)",
+                     "res-fresh": "fresh(res)"},
+                 "props": ("C06",)}}
+    ensures = {"C06.entry-text": "joined(result) == entry_text(block, bibtex_format)",
+               "C07.fresh": "fresh(result)"}
+    raises = {}
+    modifies = []
+
+
+@contract("bibtexparser.writer._treat_string")
+class _:
+    sorts = {"block": "ref:String", "bibtex_format": "ref:BibtexFormat", "result": "list:str"}
+    requires = {"value-str": "isstr(block._value)"}
+    ensures = {"C06.string-text": "joined(result) == string_text(block, bibtex_format)", "C07.fresh": "fresh(result)"}
+    raises = {}
+    modifies = []
+
+
+@contract("bibtexparser.writer._treat_preamble")
+class _:
+    sorts = {"block": "ref:Preamble", "bibtex_format": "ref:BibtexFormat", "result": "list:str"}
+    ensures = {"C06.preamble-text": "joined(result) == '@preamble{' + block._value + '}\\n'", "C07.fresh": "fresh(result)"}
+    raises = {}
+    modifies = []
+
+
+@contract("bibtexparser.writer._treat_impl_comment")
+class _:
+    sorts = {"block": "ref:ImplicitComment", "bibtex_format": "ref:BibtexFormat", "result": "list:str"}
+    ensures = {"C06.icomment-text": "joined(result) == block._comment + '\\n'", "C07.fresh": "fresh(result)"}
+    raises = {}
+    modifies = []
+
+
+@contract("bibtexparser.writer._treat_expl_comment")
+class _:
+    sorts = {"block": "ref:ExplicitComment", "bibtex_format": "ref:BibtexFormat", "result": "list:str"}
+    ensures = {"C06.ecomment-text": "joined(result) == '@comment{' + block._comment + '}\\n'", "C07.fresh": "fresh(result)"}
+    raises = {}
+    modifies = []
+
+
+@contract("bibtexparser.writer._treat_failed_block")
+class _:
+    """failed blocks are emitted verbatim under the CONFIGURED warning comment (property text)"""
+    sorts = {"block": "ref:ParsingFailedBlock", "bibtex_format": "ref:BibtexFormat", "result": "list:str"}
+    requires = {"raw-str": "isstr(block._raw)"}
+    ensures = {"C06.failed-text": "joined(result) == failed_text(block, bibtex_format)", "C07.fresh": "fresh(result)"}
+    raises = {}
+    modifies = []
+
+
+@contract("bibtexparser.writer._treat_block")
+class _:
+    sorts = {"bibtex_format": "ref:BibtexFormat", "block": "ref:Block", "result": "list:str"}
+    requires = {"column-int": COLUMN_INT, "writable": "writable(block)"}
+    ensures = {"C06.block-text": "joined(result) == block_text(block, bibtex_format)", "C07.fresh": "fresh(result)"}
+    raises = {}
+    modifies = []
